@@ -27,7 +27,7 @@ P = {
          "Random effectful programs (assignments in operand positions, recording and failing functions, unknown names, k/0 with distinct k, eager if, no short-circuit) over varied contexts; result (exact names, messages and failing operands), final variables and call log with arguments must equal the reference. Scale families (DESIGN §10.16): the same per-case check on programs, operands, literals, separators, histories and contexts of sizes 1..400 clustered around typical capacities (8, 16, 32, 64, 128, 256).",
          "User functions deterministic; their only effect is the harness-owned log."),
  "C09": ("4 C09", "complete configuration matrix enumeration + proptest over random programs whose names live in both namespaces; oracle: reference resolution rule / reference interpreter with recording functions",
-         "54 names x 130 context configurations (switch, user function recording or itself failing with FunctionIdentifierNotFound, variable, clone / clone_from / clear_functions / clear / toggled twice / clearing while another copy is alive, both empty contexts) x 56 call and variable forms = 393,120 evaluations, all enumerated; callee, argument shape and error must match. Then random programs (nested and juxtaposed calls, assignments to variables named like functions, tuples, chains) over 10 shared names in random HashMapContexts (300 k quick / 6 M thorough), compared on result, call log and final variables. Scale families (DESIGN §10.16): the same per-case check on programs, operands, literals, separators, histories and contexts of sizes 1..400 clustered around typical capacities (8, 16, 32, 64, 128, 256).",
+         "65 names (49 builtins, 5 non-builtin names, 11 identifiers of 31..300 bytes) x 130 context configurations (switch, user function recording or itself failing with FunctionIdentifierNotFound, variable, clone / clone_from / clear_functions / clear / toggled twice / clearing while another copy is alive, both empty contexts) x 56 call and variable forms, all enumerated (counts in the evidence file); a many-functions family (1..129 context functions at once, some named like builtins; as built / clone / clear_functions / clear); callee, argument shape and error must match. Then random programs (nested and juxtaposed calls, assignments to variables named like functions, tuples, chains) over 10 shared names in random HashMapContexts (300 k quick / 6 M thorough), compared on result, call log and final variables. Scale families (DESIGN §10.16): the same per-case check on programs, operands, literals, separators, histories and contexts of sizes 1..400 clustered around typical capacities (8, 16, 32, 64, 128, 256).",
          "Builtin results are those of the C10 reference."),
  "C10": ("4 C10", "complete builtin x argument-shape matrix + per-family proptest; oracle: per-builtin reference functions (bit-exact / error / validity predicate for min,max) and len/substring laws",
          "49 builtins x 23,500 argument shapes (arity 0..3) in both build profiles, random arguments near function-specific boundaries, and (string, a, b) triples for the len/substring consistency laws. Scale families (DESIGN §10.16): the same per-case check on programs, operands, literals, separators, histories and contexts of sizes 1..400 clustered around typical capacities (8, 16, 32, 64, 128, 256).",
